@@ -1,15 +1,21 @@
 """Triage of iteration-order sites (C18 / C15 / C17): order-insensitive uses that the automatic consumer rules cannot
-see.  Keyed by (module, function, iterated name, consumer kind); one reason per line, each confirmed by reading."""
+see.  Keyed by (module, function, rename-stable site key, consumer kind); one reason per line, each confirmed by reading."""
 
 ORDER_SAFE = {
-    ('counting_interpreter', 'CountingInterpreter.finalize', 'dependencies', 'for'):
-        'each iteration rewrites only the statistics entry of its own element (existing key, no insertion) from values that do not '
-        'depend on the other iterations',
-    ('counting_interpreter', 'CountingInterpreter.finalize', 'requires_updating', 'for'):
-        'each iteration recomputes the score of its own element only',
-    ('interpreter', 'Interpreter.interpreting_warnings', '_interpreting_warnings', 'call:list'):
+    # key: (module, function, rename-stable site key, consumer kind).  The site key (core/localkeys.py) is the definition of the
+    # iterated local and the consuming construct with every name bound in the function masked as `_`: renaming locals keeps the
+    # entry, editing the loop body orphans it (the reason below is a statement about that body and has to be re-read).
+    ('counting_interpreter', 'CountingInterpreter.finalize',
+     'def:{_ for _, _ in self._pattern_usage.items() if _ in _.used_patterns} @ for _ in _: _ = self._pattern_usage[_] _.add(_) '
+     'self._pattern_usage[_] = self._pattern_usage[_]._replace(complexity=_.complexity - _.complexity * _.used_patterns[_] + 1) '
+     'for _ in _.used_patterns: self._pattern_usage[_].used_patterns[_] -= _.used_patterns[_] * _.used_patterns[_]', 'for'):
+        '(`dependencies`) each iteration rewrites only the statistics entry of its own element (existing key, no insertion) from '
+        'values that do not depend on the other iterations',
+    ('counting_interpreter', 'CountingInterpreter.finalize', 'def:set() @ for _ in _: self._compute_complexity_score(_)', 'for'):
+        '(`requires_updating`) each iteration recomputes the score of its own element only',
+    ('interpreter', 'Interpreter.interpreting_warnings', 'expr:self._interpreting_warnings @ list(self._interpreting_warnings)', 'call:list'):
         'the warnings are only printed on stdout by check_interpreting; they never reach the gamma/claim/proof files',
-    ('k.kore_convertion.language_semantics', 'LanguageSemantics.notations', '_inferred_notations', 'star'):
+    ('k.kore_convertion.language_semantics', 'LanguageSemantics.notations', 'expr:self._inferred_notations @ *self._inferred_notations', 'star'):
         'the tuple only feeds the notation lookup dictionary {definition: notation} and add_notation de-duplication; its order matters '
         'only if two notations share a definition (advisory)',
 }
